@@ -61,12 +61,68 @@ def twobam_cases(dll, n, rng):
                    meta=dict(kind='two-bams', dll=dll, interval=int(iv * 1e6)))
 
 
+def cmdt_bam_cases(dll, n, rng):
+    """a connection-mode transfer and a broadcast from two applications of ONE ECU, the transfer started first and finished
+    (acknowledged by the real peer) while the broadcast is between two of its packets: the broadcast keeps its pace"""
+    fd = dll != 'j1939-21'
+    for k in range(n):
+        iv = rng.choice([0.05, 0.1, 0.15])
+        off = rng.choice([500, 2000, 20000])
+        n1, n2 = (rng.choice([100, 200]), rng.choice([290, 400])) if fd else (rng.choice([9, 20, 30]), rng.choice([30, 40]))
+        yield dict(stacks=[dict(dll=dll, max_cmdt=rng.choice([1, 3, 255]), bam_iv=iv, subs=[dict(cid=1, filt=0x10), dict(cid=2, filt=0x11)], cas=[]),
+                           dict(dll=dll, max_cmdt=rng.choice([1, 2, 255]), subs=[dict(cid=3, filt=0x20)], cas=[])], lat=[rng.choice([1, 500])], jit=[1],
+                   script=[dict(t=1000, s=0, op='send', a=[0, 0xD0, 0x20, 6, 0x10, dict(seed=71 + k, len=n1)]),
+                           dict(t=1000 + off, s=0, op='send', a=[0, 0xFE, 0x32, 6, 0x11, dict(seed=91 + k, len=n2)])],
+                   horizon=1000 + off + 12 * int(iv * 1e6) + 1_000_000, inject=[],
+                   meta=dict(kind='two-bams', dll=dll, interval=int(iv * 1e6), sources=[0x11]))
+
+
+def wake_cases(dll, n):
+    """frames that wake the background thread (announcements of broadcasts by other nodes) arrive a moment BEFORE a deadline of
+    the stack's own broadcast: the next packet still leaves no earlier than its time"""
+    import refpeer as R
+    import peer as P
+    fd = dll != 'j1939-21'
+    iv = 10000 if fd else 50000
+    base = dict(stacks=[dict(dll=dll, max_cmdt=255, subs=[dict(cid=1, filt=0x10)], cas=[])], lat=[1], jit=[1000], inject=[],
+                script=[dict(t=3000, s=0, op='send', a=[0, 0xFE, 0x31, 6, 0x10, dict(seed=12, len=400 if fd else 40)])],
+                horizon=3000 + 12 * iv + 400_000, meta=dict(kind='bus-time', dll=dll, interval=iv))
+    dry = scen.run(dict(base))
+    dts = [e[0] for e in dry.trace if e[2] == 'tx' and ((e[3] >> 16) & 0xFF) == (0x4E if fd else 0xEB) and ((e[3] >> 8) & 0xFF) == 0xFF]
+    if len(dts) < 3:
+        return
+    for k in range(n):
+        # the deadline of packet 2 resp. 3 is one interval after the previous packet left
+        due = dts[k % 2] + iv
+        xs = [950, 700, 400, 150, 20][k % 5:] + [990, 500, 60]
+        sc = dict(base)
+        inj = []
+        for i, x in enumerate(xs[:4]):
+            if fd:
+                inj.append(dict(t=due - x, to=0, id=R.ref_can_id(7, 0x4D00 + 255, 0x60 + i), data=P.fd_cm(4, i % 4, 200, 4, 255, 0, 0xFE80 + i), fd=True, via='listener'))
+            else:
+                inj.append(dict(t=due - x, to=0, id=R.ref_tp_cm_id(7, 255, 0x60 + i), data=R.ref_bam(20, 3, 0xFE80 + i), via='listener'))
+        sc['inject'] = sorted(inj, key=lambda e: e['t'])
+        sc['meta'] = dict(base['meta'], wakeups_before=due)
+        yield sc
+
+
 def twobam_oracle(sc, res):
     m = sc['meta']
     fd = m['dll'] != 'j1939-21'
     v = []
-    for sa in (0x10, 0x11):
+    for sa in m.get('sources', (0x10, 0x11)):
         dts = [e[0] for e in res.trace if e[2] == 'tx' and ((e[3] >> 16) & 0xFF) == (0x4E if fd else 0xEB) and (e[3] & 0xFF) == sa]
+        # the whole broadcast leaves: every packet of it, the first one an interval after the announcement
+        ann = [e[0] for e in res.trace if e[2] == 'tx' and ((e[3] >> 16) & 0xFF) == (0x4D if fd else 0xEC) and (e[3] & 0xFF) == sa and ((e[3] >> 8) & 0xFF) == 0xFF]
+        sent = [ev for ev in sc['script'] if ev['op'] == 'send' and ev['a'][4] == sa and ev['a'][1] >= 240]
+        if ann and sent:
+            ln = sent[0]['a'][5]['len']
+            need = (ln + 59) // 60 if fd else (ln + 6) // 7
+            if len(dts) != need:
+                v.append(dict(kind='broadcast-not-sent-completely', source=sa, packets=len(dts), expected=need))
+                continue
+            dts = [ann[0]] + dts
         for a, b in zip(dts, dts[1:]):
             if b - a < m['interval']:
                 v.append(dict(kind='bam-packets-closer-than-interval', source=sa, gap=b - a, interval=m['interval']))
@@ -111,7 +167,7 @@ def run(out, tier, rng, work):
                 'remaining), 0..3 holds spaced < 0.5 s, reply latency 0..150 ms, BAM spacing 50..190 ms (FD 10..190 ms), RTS limit 1..255; '
                 'oracle reads the bus: decode by the reference layouts / window and pacing discipline / grants; J1939-21 handler logs '
                 'replayed on the Coq model; non-trivial = the transfer ran (TP frames on the bus)'
-                ' Every fourth scenario: FD with the last segment on both sides of every CAN-FD length step; every fourth: J1939-21 responder with sizes at multiples of 7 and a partial last window; cyclic application timers in 30 %.')
+                ' Plus: wake-ups a moment before a broadcast deadline; a connection-mode transfer finishing while a broadcast of the same ECU is under way; a responder that shrinks its grants.  Every fourth scenario: FD with the last segment on both sides of every CAN-FD length step; every fourth: J1939-21 responder with sizes at multiples of 7 and a partial last window; cyclic application timers in 30 %.')
     out.assumptions = ['A1-A6 of DESIGN.md section 3', 'J1939-22 frames are checked against refpeer layouts by the oracle; the Coq wire theorems cover J1939-21 (FD builders: see C02)']
     C.std_proof_stage(out, 'C09', FILES)
     n = 150 if tier == 'quick' else 3000
@@ -160,7 +216,14 @@ def run(out, tier, rng, work):
             for x in bustime_oracle(sc, res):
                 if x['kind'] not in worst:
                     worst[x['kind']] = (x, sc)
-        for sc in twobam_cases(dll, 8 if tier == 'quick' else 80, rng):
+        for sc in wake_cases(dll, 10 if tier == 'quick' else 60):
+            res = scen.run(sc)
+            nb += 1
+            out.add_case(scen.sc_hash(sc), True)
+            for x in bustime_oracle(sc, res):
+                if x['kind'] not in worst:
+                    worst[x['kind']] = (x, sc)
+        for sc in list(twobam_cases(dll, 8 if tier == 'quick' else 80, rng)) + list(cmdt_bam_cases(dll, 6 if tier == 'quick' else 60, rng)):
             res = scen.run(sc)
             nb += 1
             out.add_case(scen.sc_hash(sc), True)
